@@ -793,8 +793,46 @@ def build_catalogue():
     add("grid.Grid.data[setter]", lambda n, s, lay: {"self": Fixed(make_valgrid("c64", s), watch=False), "value": A(mat(6, 6, s))},
         setdata, exempt=["self"])
 
+    # the setter on a grid that carries finite value bounds (out-of-range values of the caller's array are clipped
+    # in the grid, not in the caller's array), and what the grid does afterwards with ITS data
+    def bounded_grid(s):
+        g = make_valgrid("c64", s)
+        g.mindata, g.maxdata = 2.0, 8.0
+        return g
+
+    add("grid.Grid.data[setter,bounded grid]", lambda n, s, lay: {"self": Fixed(bounded_grid(s), watch=False), "value": A(mat(6, 6, s))},
+        setdata, exempt=["self"])
+
+    def setdata_fill(a):
+        a["self"].data = a["value"]
+        a["self"].fill(-3.5)
+        a["self"].data[0, 0] = 77.
+        return a["self"].data.copy()
+
+    add("grid.Grid.data[setter] then fill", lambda n, s, lay: {"self": Fixed(make_valgrid("c64", s), watch=False), "value": A(mat(6, 6, s))},
+        setdata_fill, exempt=["self"])
+
     def gridself(n, s, lay):
         return {"self": Fixed(make_valgrid(lay, s))}
+
+    def clip_fill(a):
+        # a band over the full width of the parent, then the child is overwritten: the parent keeps its cells
+        child = a["self"].clip(10.1, -2.4, 12.9, -0.9)
+        out = child.data.copy()
+        child.fill(5.5)
+        child.data[0, 0] = -1.
+        return out
+
+    add("grid.Grid.clip[full width] then fill", gridself, clip_fill, layouts=GRID_LAYOUTS)
+
+    def apply_inplace(a):
+        def fun(x):
+            x[x < 3.] = 0
+            return x
+        return a["self"].apply(fun)
+
+    add("grid.Grid.apply[function working in place]", gridself, apply_inplace, layouts=GRID_LAYOUTS)
+    add("grid.Grid.apply[ufunc out=]", gridself, lambda a: a["self"].apply(lambda x: np.add(x, 1, out=x)), layouts=GRID_LAYOUTS)
 
     add("grid.Grid.clip", gridself, lambda a: a["self"].clip(10.6, -2.4, 12.1, -0.9), layouts=GRID_LAYOUTS)
     add("grid.Grid.clone", gridself, lambda a: a["self"].clone(), layouts=GRID_LAYOUTS)
